@@ -15,4 +15,10 @@ open BHS.Props.C02
 #print axioms C02_tracks_reorg_on
 #print axioms C02_verdict_translated
 #print axioms C02_severity_translated
+#print axioms C02_lcUnique_reachable
+#print axioms C02_confirmed_reachable
+#print axioms C02_unable_reachable
+#print axioms C02_invalid_reachable
+#print axioms C02_answered_reachable
+#print axioms C02_tracks_reorg_on_reachable
 #print axioms BHS.Props.SqlShape.verify_statements
